@@ -42,13 +42,16 @@ def trees(tier, seed):
         nested = [(("d", "my dir", (("f", "a.c"),)),), (("d", "inc.h", (("f", "b.h"), ("f", "ac"))),)]
     else:
         nested = [(("d", "my dir", (("f", "a.c"),)),)]
+    small_pool = [("f", "a.c"), ("f", "b.h"), ("f", "a.cc"), ("f", "notes.txt"), ("d", "src"), ("d", "lib.c"), ("d", "empty")]
     for k in range(1, max_root + 1):
-        for combo in itertools.combinations(root_pool, k):
+        pool_k = root_pool if k <= 2 else small_pool
+        for combo in itertools.combinations(pool_k, k):
             dirs = [e for e in combo if e[0] == "d" and e[1] != "empty"]
             files = [e for e in combo if e[0] == "f"] + [("d", "empty", ()) for e in combo if e == ("d", "empty")]
             options = []
+            csets = child_sets if k <= 2 else [cs for cs in child_sets if len(cs) <= 1]
             for d in dirs:
-                opts = [("d", d[1], tuple(("f", c) for c in cs)) for cs in child_sets if cs]
+                opts = [("d", d[1], tuple(("f", c) for c in cs)) for cs in csets if cs]
                 opts += [("d", d[1], nst) for nst in nested]
                 options.append(opts)
             for choice in itertools.product(*options):
@@ -139,11 +142,11 @@ def arg_lists(tree, tier):
     for a in base:
         yield (a,)
     pairs = list(itertools.product(base, repeat=2))
-    if tier == "quick":
+    if tier == "quick" or len(base) > 6:
         pairs = [(a, b) for a, b in pairs if a == b or a in (".",) or b in ("missing.c",) or (a, b) == (ps[0], ps[-1])]
     for a, b in pairs:
         yield (a, b)
-    if tier == "thorough" and len(base) <= 5:
+    if tier == "thorough" and len(base) <= 4:
         for t in itertools.product(base, repeat=3):
             yield t
 
